@@ -174,7 +174,7 @@ func init() {
 		},
 		Subs: []h.Sub{
 			{
-				Name: "concurrent-readers", Count: h.Fixed(12, 400), Serial: true, BudgetSec: 300,
+				Name: "concurrent-readers", Count: h.Fixed(12, 400), Serial: true, BudgetSec: 300, BudgetSecThorough: 3600,
 				Run: func(c *h.Ctx, idx uint64, r *h.Rand) {
 					sizes := []int{0, 1, 7, 1000, 1000, 5000, 50000}
 					n := sizes[int(idx)%len(sizes)]
@@ -272,8 +272,8 @@ func init() {
 							q.p = items[r.Intn(len(items))].Point()
 						}
 						q.k = []int{1, 3, 16}[r.Intn(3)]
-						if r.P(1, 20) {
-							q.k = 1 << 17 // "everything", said with a huge k
+						if r.P(1, 20) && (n < 5000 || r.P(1, 5)) {
+							q.k = 1 << 17 // "everything", said with a huge k (rarer on large trees: every such answer is the whole tree, sorted)
 						}
 						q.maxDist = -1
 						if r.P(1, 3) {
